@@ -3,9 +3,15 @@ package props
 
 import (
 	"mcverif/engine"
+	"mcverif/props/c09"
+	"mcverif/props/c10"
 	"mcverif/props/c15"
+	"mcverif/props/c16"
 )
 
 var Registry = map[string]engine.Spec{
+	"C09": c09.Spec,
+	"C10": c10.Spec,
 	"C15": c15.Spec,
+	"C16": c16.Spec,
 }
